@@ -267,6 +267,9 @@ func (pi *pinterp) eval(info *types.Info, e ast.Expr, env *penv) pval {
 		if base.k == pvNode && base.s == "parent" && x.Sel.Name == "ResolvedType" && pi.resultKind != "" {
 			return pval{k: pvType, s: pi.resultKind}
 		}
+		if base.k == pvNode && base.s == "array" && x.Sel.Name == "Dimensions" {
+			return pval{k: pvAbs, s: "nonnil", n: 1} // the dimension list of the abstract array: present and empty
+		}
 		if base.k == pvNode {
 			switch x.Sel.Name {
 			case "Left", "Right":
@@ -407,6 +410,10 @@ func (pi *pinterp) eval(info *types.Info, e ast.Expr, env *penv) pval {
 			case token.NEQ:
 				return pval{k: pvBool, b: l.b != r.b}
 			}
+		}
+	case *ast.StarExpr:
+		if v := pi.eval(info, x.X, env); v.k == pvAbs && v.s == "nonnil" && v.n == 1 {
+			return pval{k: pvList}
 		}
 	case *ast.FuncLit:
 		return pval{k: pvClosure, lit: x, env: env, info: info}
@@ -843,7 +850,7 @@ func (pi *pinterp) call(info *types.Info, ce *ast.CallExpr, env *penv) []pval {
 			return []pval{{k: pvType, s: "common"}, {k: pvAbs, s: "nil"}}
 		case pi.typing && f.Name() == "GetPrimitiveType" && len(ce.Args) == 1:
 			return []pval{{k: pvString, s: "<some primitive>"}, {k: pvBool, b: true}}
-		case pi.typing && f.Name() == "Add" && strings.Contains(full, "ErrorSink"):
+		case f.Name() == "Add" && strings.Contains(full, "ErrorSink"):
 			pi.events = append(pi.events, "error")
 			return nil
 		case pi.typing && f.Name() == "GetKindIfPrimitive" && len(ce.Args) == 1:
@@ -945,6 +952,14 @@ func (pi *pinterp) call(info *types.Info, ce *ast.CallExpr, env *penv) []pval {
 						if nt := core.NamedOf(sig.Params().At(i).Type()); nt != nil && nt.Obj().Name() == "PrimitiveDefinition" {
 							if v := pi.eval(info, a, env); v.k == pvString {
 								relevant = true
+							}
+						}
+						// a predicate over an enumeration of the model (PrimitiveKind, ...) given a known constant
+						if nt := core.NamedOf(sig.Params().At(i).Type()); nt != nil && nt.Obj().Pkg() != nil && strings.HasSuffix(nt.Obj().Pkg().Path(), "/pkg/dsl") {
+							if b, isBasic := nt.Underlying().(*types.Basic); isBasic && b.Info()&types.IsInteger != 0 {
+								if v := pi.eval(info, a, env); v.k == pvInt || v.k == pvOp {
+									relevant = true
+								}
 							}
 						}
 					}
@@ -1648,6 +1663,48 @@ func kindDecisions(c *core.Ctx, info *types.Info, d *ast.FuncDecl, sh tshape) (i
 		return 0, true, ""
 	}
 	return mask, true, ""
+}
+
+// emptyDimensionsRejected evaluates a statement list that handles a *dsl.Array (bound to obj) for the abstract array whose
+// Dimensions is present and empty: is an error reported on every path? (decided, reported)
+func emptyDimensionsRejected(c *core.Ctx, info *types.Info, body []ast.Stmt, obj types.Object) (bool, bool) {
+	all := true
+	runs := 0
+	var explore func(choices []bool) bool
+	explore = func(choices []bool) bool {
+		pi := &pinterp{c: c, choices: choices}
+		env := &penv{vars: map[types.Object]pval{}}
+		if obj != nil {
+			env.vars[obj] = pval{k: pvNode, s: "array"}
+		}
+		pi.exec(info, body, env)
+		if pi.unknown != "" {
+			return false
+		}
+		if pi.asked > len(choices) {
+			for _, b := range []bool{false, true} {
+				if !explore(append(append([]bool(nil), choices...), b)) {
+					return false
+				}
+			}
+			return true
+		}
+		runs++
+		reported := false
+		for _, ev := range pi.events {
+			if ev == "error" {
+				reported = true
+			}
+		}
+		if !reported {
+			all = false
+		}
+		return true
+	}
+	if !explore(nil) || runs == 0 {
+		return false, false
+	}
+	return true, all
 }
 
 func sortedScen(m map[pscen]bool) []pscen {
